@@ -297,6 +297,10 @@ func execute(ks *kits, ageBin string, c *cmdT, root string, limitBytes int) (*ou
 		args = []string{"-p", "-r", xr}
 	case "two_inputs":
 		args = []string{"-r", xr}
+	case "R_stdin":
+		args = []string{"-R", "-"} // and the input comes from standard input too
+	case "i_stdin":
+		args = []string{"-d", "-i", "-"}
 	}
 	inName := "input.bin"
 	inPath := filepath.Join(dir, inName)
